@@ -474,16 +474,13 @@ def run_bh_long(case, ctx):
 # --------------------------------------------------------------------------------------------
 # segmetrics: one call, every clause
 def table_feature(T, cfg):
+    """Coarse input feature for finding keys: geometry and whether skip_low actually removes a bin."""
     f = []
     g = T.spec["geom"]
     if g != "abut":
         f.append(g)
-    if T.null is not None:
-        f.append("null-bin")
-    if cfg["skip_low"]:
+    if cfg["skip_low"] and T.null is not None:
         f.append("skip_low")
-    if T.spec["index"] != "default":
-        f.append("index-" + T.spec["index"])
     return "+".join(f) or "plain"
 
 
@@ -509,13 +506,14 @@ def check_segmetrics(ctx, T, loc, spread, interval, cfg, sub, rerun=False):
     """Run do_segmetrics once (twice with rerun) on table T and evaluate every clause of the statement."""
     tfeat = table_feature(T, cfg)
     ctx.state(("segmetrics", T.spec, cfg["skip_low"]), nontrivial=T.nontrivial())
+    np.random.seed(17)  # a fixed global RNG state before the first run (replays are then deterministic even if the code were unseeded)
     out, sg, before = call_segmetrics(ctx, T, loc, spread, interval, cfg)
     req = {"loc": list(loc), "spread": list(spread), "interval": list(interval)}
     sub = {**sub, "table": T.spec, "config": cfg, "requested": req}
     if isinstance(out, Exc):
         ctx.violation(
             "segmetrics computes each requested statistic for every segment",
-            f"segmetrics/raises/{out.key}/{tfeat}",
+            f"segmetrics/raises/{out.key}/{'table-with-an-empty-segment' if any(m['n'] == 0 for m in T.model(cfg['skip_low'])) else 'every-segment-has-bins'}",
             expected="a table with one row per segment",
             observed=out,
             sub=sub,
